@@ -587,14 +587,20 @@ static void all_texts(const Bytes& alpha, std::size_t maxl, std::vector<Bytes>& 
     lo = hi;
   }
 }
+// zero_free: arbitrary non-zero bytes.  Otherwise the text may contain pad
+// bytes anywhere and is drawn from the small alphabet {00,'a'..'d'} (C15's
+// quantifier: texts over a small alphabet, random texts without zero bytes).
 static Bytes rand_text(Rng& rng, std::size_t len, bool zero_free) {
   Bytes t(len);
   for (auto& b : t) {
     const auto r = rng.below(100);
+    if (!zero_free) {
+      b = r < 25 ? 0 : static_cast<std::uint8_t>('a' + rng.below(4));
+      continue;
+    }
     if (r < 50) b = static_cast<std::uint8_t>('a' + rng.below(4));       // shared prefixes
     else if (r < 60) b = static_cast<std::uint8_t>(rng.chance(50) ? 0xFF : 0x01);
-    else b = static_cast<std::uint8_t>(rng.below(256));
-    if (zero_free && b == 0) b = 1;
+    else b = static_cast<std::uint8_t>(1 + rng.below(255));
   }
   return t;
 }
@@ -629,7 +635,7 @@ static void run_plan(const Plan& P) {
   Rng rng(P.seed);
   const std::size_t K = 128;
   const std::size_t maxlen = unodb::key_encoder::maxlen;
-  const std::size_t scale = P.thorough ? 12 : 1;
+  const std::size_t scale = P.thorough ? 40 : 1;
 
   // --- all values of the 8- and 16-bit types
   for (Ty t : {U8, I8, U16, I16}) {
@@ -827,6 +833,8 @@ static int run_sweep32(Ty t, const std::string& out_path, unsigned threads) {
     th.emplace_back([&, w] {
       const std::uint64_t lo = total * w / threads, hi = total * (w + 1) / threads;
       unodb::key_encoder e1, e2;
+      std::uint64_t cnt = 0;
+      std::vector<std::pair<std::uint32_t, std::uint32_t>> mybad;
       for (std::uint64_t i = lo; i < hi; ++i) {
         const auto x = static_cast<std::uint32_t>(i);
         std::uint32_t y = 0;
@@ -854,9 +862,11 @@ static int run_sweep32(Ty t, const std::string& out_path, unsigned threads) {
         else { float v; d.decode(v); back = std::bit_cast<std::uint32_t>(v); }
         if (nan) ok = ok && (back & 0x7FC00000u) == 0x7FC00000u;   // a quiet NaN
         else ok = ok && back == x;
-        if (!ok && bad[w].size() < 200) bad[w].push_back({x, has ? y : x});
-        ++counts[w];
+        if (!ok && mybad.size() < 200) mybad.push_back({x, has ? y : x});
+        ++cnt;
       }
+      counts[w] = cnt;
+      bad[w] = std::move(mybad);
     });
   for (auto& x : th) x.join();
   std::uint64_t n = 0;
